@@ -329,7 +329,12 @@ func Scenario(seed int64, k int, res *l2.Result) {
 		query.UseLogger(q)
 	}
 
-	w := l2.NewWorld(l2.Config{Seed: plan.Seed, Preset: plan.Preset, Interval: 8, SpacingSec: 4, GenesisAgo: 2 * time.Hour})
+	ago := 2 * time.Hour
+	if plan.Skew {
+		// Tip about 100 minutes ahead of the real clock.
+		ago = time.Duration(plan.ChainLen*4)*time.Second - 100*time.Minute
+	}
+	w := l2.NewWorld(l2.Config{Seed: plan.Seed, Preset: plan.Preset, Interval: 8, SpacingSec: 4, GenesisAgo: ago})
 	defer w.Cleanup()
 	trunk := w.G.Extend(w.G.Genesis, plan.ChainLen, chaingen.PaceNormal)
 	tip := trunk[len(trunk)-1]
@@ -343,6 +348,10 @@ func Scenario(seed int64, k int, res *l2.Result) {
 		p := w.AddPeer(tip)
 		d.peerIdx[p.Addr] = i
 		p.Mutate = d.mutate
+		if plan.Skew && i > 0 {
+			p.TimeOffset = -69 * time.Minute
+			w.Net.Refuse(p.Addr, true)
+		}
 	}
 	d.reserved[trunk[0].Hash] = true
 	d.reserved[tip.Hash] = true
@@ -370,6 +379,15 @@ func Scenario(seed int64, k int, res *l2.Result) {
 		res.Inconcl("initial sync did not complete within 90 s")
 		_, _ = w.StopClient(60 * time.Second)
 		return
+	}
+	if plan.Skew {
+		for _, p := range w.Peers[1:] {
+			w.Net.Refuse(p.Addr, false)
+		}
+		if !l2.WaitFor(20*time.Second, func() bool { return int(w.Svc.ConnectedCount()) == plan.Peers }) {
+			res.Inconcl("clock-skew scenario: the late peers did not all connect")
+		}
+		res.Count("clock_skew_scenarios", 1)
 	}
 	l2.WaitFor(10*time.Second, func() bool { return int(w.Svc.ConnectedCount()) == plan.Peers })
 
@@ -755,6 +773,10 @@ func Scenario(seed int64, k int, res *l2.Result) {
 					p.Addr, must.HashStr, must.Height, must.Step, firstBad(must).SanityErr, firstBad(must).CommitErr, how), wit())
 		case must == nil && orphan != nil && !invalidBan:
 			res.Inconcl("an invalid answer was sent after its call had ended; ban not required")
+		case !anyBad && !anyAmbig && invalidBan && plan.Skew:
+			// The client's adjusted clock was moved back by its peers: it
+			// rejects the true block for its timestamp. Outside the statement.
+			res.Count("skew_true_block_senders_banned", 1)
 		case !anyBad && !anyAmbig && invalidBan:
 			res.Violate(evid.Sig("c06/innocent-peer-banned", strings.Join(cl, "+")),
 				fmt.Sprintf("peer %s never sent a block with a requested header that differs from the true block (answer classes: %v) yet is banned for InvalidBlock", p.Addr, cl), wit())
@@ -896,7 +918,7 @@ func Scenario(seed int64, k int, res *l2.Result) {
 			if c.GroupN == 1 && !c.Plan.Unknown && len(mine) < want && len(mine)+len(phantom) >= want {
 				res.Count("failed_calls_with_possible_phantom_try", 1)
 			}
-			if c.GroupN == 1 && !c.Plan.Unknown && len(mine)+len(phantom) < want {
+			if c.GroupN == 1 && !c.Plan.Unknown && len(mine)+len(phantom) < want && !plan.Skew {
 				if c.DurMs < 25000 {
 					res.Violate(evid.Sig("c06/gave-up-before-retries-exhausted", strings.Join(steps, ","), errClass(c.Err)),
 						fmt.Sprintf("GetBlock(%s) failed with %q after asking %d time(s) although %d tries were allowed", c.HashStr, c.Err, len(mine), want), wit())
@@ -938,6 +960,10 @@ func Scenario(seed int64, k int, res *l2.Result) {
 		}
 	}
 	for k, n := range good {
+		if succ[k] < n && plan.Skew {
+			res.Count("skew_valid_answers_rejected", int64(n-succ[k]))
+			continue
+		}
 		if succ[k] < n {
 			a := firstGood[k]
 			res.Violate(evid.Sig("c06/error-despite-valid-response", a.Step, witStr(w, k.h)),
